@@ -2,3 +2,6 @@ import SSJ.Props.C16
 import SSJ.Props.C17
 import SSJ.Props.C03
 import SSJ.Props.C06
+import SSJ.Props.C01
+import SSJ.Props.C02
+import SSJ.Props.C09
